@@ -131,8 +131,9 @@ def run(ctx):
             ok6 = False
             for v, guards in foks:
                 for c, val in guards:
-                    if isinstance(c, tuple) and c[0] == "binop" and c[1] == "Ne" and c[3] == ("int", 33) and "len" in repr(c[2]) and "base64::decode" in repr(c[2]) and val == 0:
-                        ok6 = True
+                    pin = pin_of(c, val)
+                    if pin and pin[1] == 33 and pin[2] and isinstance(pin[0], tuple) and pin[0][0] == "len" and "base64::decode" in repr(pin[0]):
+                        ok6 = True          # `len == 33` on its equal edge, in any spelling
                 if v in exact33:
                     ok6 = True      # Vec<u8> / &[u8] -> [u8; 33] TryFrom succeeds iff the length is exactly 33
             ctx.add("R09.6", "C09/keyid-33", ok6, "" if ok6 else "no success-path guard `decoded length == 33`", site_of(ff))
